@@ -82,7 +82,8 @@ def rand_tree(rng, depth=3, fanout=4, symlinks=True, owners=True, pool=None, neg
             if r < 0.3 and d > 0:
                 node["c"][name] = mkdir(d - 1)
             elif r < 0.42 and symlinks:
-                tgt = rng.choice(["a", "../a", "/nonexistent/x", ".", "..", "b/c", "ñ"])
+                tgt = rng.choice(["a", "../a", "/nonexistent/x", ".", "..", "b/c", "ñ",
+                                  "notes\\2024.txt", "dir\\", "a//b", "./a", "a/", " a ", "-r", "a\nb", "~", "%41", "日/本"])
                 node["c"][name] = meta({"k": "l", "target": tgt}, True)
                 if rng.random() < 0.5:
                     # a later sibling whose name merely EXTENDS the link's name (lib -> ..., lib64/): it is not beneath the link
